@@ -13,25 +13,26 @@ AXIOMS = {
 }
 # theorem names that must be present in Props/Cxx.v
 PINNED = {
-    "C01": ["c01_myers_valid", "c01_myers_no_panic", "c01_snake_spec", "c01_lcs_valid", "c01_lcs_no_panic",
-            "c01_patience_valid", "c01_patience_no_panic", "c01_strong_implies_spec", "c01_raw_replay", "c01_checker_reflects"],
-    "C02": ["c02_capture_valid", "c02_capture_no_panic", "c02_capture_apply", "c02_identical_only_equal", "c02_ratio"],
+    "C01": ["c01_myers_valid", "c01_myers_no_panic", "c01_snake_spec", "c01_lcs_valid", "c01_lcs_no_panic", "c01_patience_valid", "c01_patience_no_panic", "c01_strong_implies_spec", "c01_raw_replay", "c01_checker_reflects"],
+    "C02": ["c02_capture_valid", "c02_capture_no_panic", "c02_capture_apply", "c02_identical_only_equal", "c02_ratio", "c02_checker_reflects"],
     "C03": ["c03_myers_minimal", "c03_lcs_minimal", "c03_cost_lower_bound", "c03_lcs_len_correct"],
-    "C04": ["c04_text_reconstruct", "c04_change_index_shape", "c04_textdiff_reconstruct", "c04_capture_valid_all"],
-    "C05": ["c05_udiff_applies", "c05_udiff_render_eq_print"],
-    "C06": ["c06_tok_bytes_ok", "c06_tok_str_ok", "c06_tok_str_bytes_agree", "c06_decode_partition"],
-    "C07": ["c07_myers_valid_any_clock", "c07_lcs_valid_any_clock"],
-    "C08": ["c08_replace_acts_by_emitting", "c08_compact_hook", "c08_no_finish_forwards", "c08_default_replace"],
+    "C04": ["c04_text_reconstruct", "c04_change_index_shape", "c04_items_reconstruct", "c04_textdiff_reconstruct_partition", "c04_textdiff_reconstruct", "c04_capture_valid_patience", "c04_capture_valid_all", "c04_capture_exact_repaired_patience", "c04_capture_no_panic_patience", "c04_capture_diff_eq_patience", "c04_patience_raw"],
+    "C05": ["c05_bytes_eqb_iff", "c05_udiff_render_eq_print_gen", "c05_udiff_render_eq_print", "c05_udiff_applies", "c05_udiff_applies_strict", "c05_udiff_render_applies", "c05_udiff_empty_iff_no_change", "c05_udiff_empty_equal", "c05_udiff_empty_iff_equal", "c05_udiff_header_once", "c05_marker_exactly", "c05_marker_exactly_body", "c05_ends_with_newline_spec", "c05_writer_bytes", "c05_lossy_app_sep", "c05_lossy_ascii", "c05_display_eq_lossy_writer"],
+    "C06": ["c06_Chars_unfold", "c06_decode_partition", "c06_decode_valid_len", "c06_decode_newline_char", "c06_decode_newline_byte", "c06_tok_bytes_ok", "c06_tok_str_ok", "c06_tok_str_bytes_agree", "c06_tokenize_lines_str_bytes", "c06_check_partition_lossless", "c06_tokenize_bytes_lossless", "c06_tokenize_str_lossless", "c06_line_shape_sound", "c06_check_chars_shape_iff"],
+    "C07": ["c07_myers_valid_any_clock", "c07_myers_completes_any_clock", "c07_lcs_valid_any_clock", "c07_lcs_completes_any_clock", "c07_snake_none_only_by_deadline"],
+    "C08": ["c08_myers_finish_last", "c08_lcs_finish_last", "c08_replace_acts_by_emitting", "c08_replace_inner_failure", "c08_compact_hook", "c08_no_finish_forwards", "c08_no_finish_body", "c08_default_replace", "c08_default_replace_trace"],
     "C09": ["c09_capture_alternating", "c09_replace_alternates", "c09_checker_reflects"],
-    "C10": ["c10_compact_preserves", "c10_compact_terminates", "c10_replace_exact", "c10_compact_hook"],
-    "C11": ["c11_exact_repaired", "c11_exact_outside_known_class", "c11_refuted"],
-    "C12": ["c12_eq_ref", "c12_G4", "c12_G4_unique", "c12_G2"],
-    "C13": ["c13_iter_changes_spec", "c13_all_changes_concat"],
-    "C14": ["c14_identify_iff_eq", "c14_textdiff_eq_tokens_diff"],
-    "C15": ["c15_patience_anchors", "c15_unique_spec"],
-    "C18": ["c18_filters_sound", "c18_exhaustive_ranking", "c18_textdiff_ratio"],
-    "C19": ["c19_myers_work_bound", "c19_snake_round_cost", "c19_snake_halves"],
-    "C20": ["c20_relabel_capture_diff"],
+    "C10": ["c10_compact_preserves", "c10_compact_terminates", "c10_compact_total", "c10_compact_hook", "c10_delete_never_slides_up", "c10_replace_exact", "c10_compact_exact_repaired"],
+    "C11": ["c11_exact_repaired", "c11_exact_outside_known_class", "c11_replace_exact", "c11_compact_exact_repaired", "c11_checker_reflects", "c11_refuted"],
+    "C12": ["c12_eq_ref", "c12_eq_ref_sep", "c12_alternating_sep", "c12_G0", "c12_G1", "c12_G2", "c12_G5", "c12_G6", "c12_G6_count", "c12_G4", "c12_G4_unique", "c12_G4_first_eq", "c12_G4_first_chg", "c12_G4_last_eq", "c12_G4_last_chg", "c12_check_groups", "c12_model_spec", "c12_model_check"],
+    "C13": ["c13_iter_changes_spec", "c13_all_changes_concat", "c13_expand_op_shape", "c13_iter_slices_spec", "c13_iter_slices_total", "c13_apply_capture_id"],
+    "C14": ["c14_identify_ok", "c14_identify_iff_eq", "c14_identify_ranges", "c14_offset_lookup_some", "c14_identify_oracles_in_range", "c14_identify_oracles_pointwise", "c14_bytes_eqb_spec", "c14_textdiff_eq_tokens_diff", "c14_textdiff_eq_tokens_diff_gen", "c14_textdiff_small_branch", "c14_newline_flag_spec"],
+    "C15": ["c15_unique_spec", "c15_unique_sorted", "c15_patience_anchors", "c15_lcs_len_correct"],
+    "C16": ["c16_inline_not_replace", "c16_inline_not_replace_no_emph", "c16_multi_seqs_spec", "c16_orig_slices_spec", "c16_orig_slices_descr", "c16_lnl_token_clean", "c16_inline_replace_spec", "c16_inline_post_pointwise", "c16_inline_replace_spec_all", "c16_inline_replace_bytes", "c16_inline_replace_total"],
+    "C17": ["c17_bytes_eqb_spec", "c17_remap_indexes_eq", "c17_remap_slice_spec", "c17_remap_slice_iter", "c17_remap_slice_empty_panics", "c17_remap_slice_empty_inside", "c17_remap_ops_reconstruct", "c17_remap_op_iter_slices"],
+    "C18": ["c18_filters_sound", "c18_ratio_le_filters", "c18_exhaustive_ranking", "c18_ranking_exists", "c18_sorted_spec", "c18_any_heap", "c18_ranking_by_ratio", "c18_filters_sound_gen", "c18_exhaustive_ranking_gen", "c18_textdiff_ratio", "c18_ratio_values", "c18_instance_Q"],
+    "C19": ["c19_count_world", "c19_prefix_scan_cost", "c19_suffix_scan_cost", "c19_fwd_step_cost", "c19_bwd_step_cost", "c19_rounds_telescope", "c19_snake_round_cost", "c19_snake_cost", "c19_snake_halves", "c19_myers_work_any_world", "c19_myers_work_bound", "c19_myers_work_bound_lcs"],
+    "C20": ["c20_identify_distinct_ext", "c20_identify_pattern", "c20_identify_first_seen", "c20_rgs_fresh", "c20_rgs_covers", "c20_rgs_next_bound", "c20_relabel_oracles_pointwise", "c20_relabel_identify", "c20_relabel_capture_diff", "c20_relabel_raw_trace", "c20_relabel_textdiff_ops", "c20_str_bytes_same_ops"],
 }
 SPECS = {}
 
@@ -1329,6 +1330,16 @@ def run_C19(ctx):
                 for alg in "MP":
                     big.append(gen.raw_line(alg, a, b))
                     ctx.count("raw:large-%d" % n)
+    # completely unrelated sequences over a large alphabet: D = N+M in the thousands, the regime where a
+    # per-round or per-box overhead that grows with D (re-started searches, re-scanned diagonals) shows
+    for m in tiered(ctx, [1200, 2500], [1200, 2500, 4000]):
+        a = [2 * i for i in range(m)]
+        b = [2 * i + 1 for i in range(m)]
+        ctx.rng.shuffle(a)
+        ctx.rng.shuffle(b)
+        for alg in "MP":
+            big.append(gen.raw_line(alg, a, b))
+            ctx.count("raw:large-unrelated-%d" % m)
     impl, _, _ = C.evaluate(ctx, "raw-large", big, rel, x=False, cap=120)
     # observed constant: comparisons / ((N+M+1)(D+1)), D = size of the reported script
     worst = 0.0
@@ -1355,6 +1366,6 @@ SPECS["C19"] = dict(
     generators="raw component with a counting PartialEq, algorithms Myers and Patience, no deadline: the exhaustive "
                "small worlds and random pairs up to 120 (comparison counts compared with the model exactly), and "
                "sequences of 300..3000/4000 items: near-identical (1-20 edits, large and small alphabets), block moves, "
-               "periodic, all-unique with few edits, unrelated (up to 600); bound checked: comparisons <= 6 (N+M+1)(D+1) "
+               "periodic, all-unique with few edits, unrelated (up to 600, small alphabet; and 1200..4000 items with no common item at all, D = N+M); bound checked: comparisons <= 6 (N+M+1)(D+1) "
                "with D the size of the reported script",
 )
